@@ -72,6 +72,7 @@ def run_property(pid, tier, seed):
         for u, f in futs.items():
             results[u] = f.result()
     obligations = {}
+    finding_obs = {}
     fns_under_contract = []
     drops = []
     trusted = set(P.get("trusted", []))
@@ -98,14 +99,23 @@ def run_property(pid, tier, seed):
             for lh in r.meta["lost_hints"]:
                 lines.append(f"NOTE unit={u} proof hint anchors lost in {lh['fn']}: {lh['anchors']} (hints skipped)")
         for name, e in r.obligations.items():
+            if "__finding_" in name:
+                finding_obs[f"V:{u}:{name}"] = e
+                continue
             obligations[f"V:{u}:{name}"] = e
         if base is None:
             undecided.append(f"{u}: no committed baseline of discharged obligations")
             continue
-        missing = [n for n in base["obligations"] if n not in r.obligations]
+        missing = [n for n in base["obligations"] if n not in r.obligations and "__finding_" not in n]
         if missing and not r.undecided:
             undecided.append(f"{u}: vacuity guard: obligations missing from this run: {missing[:5]}")
+        finding_fns = {f["name"]: f["finding"] for f in (r.meta["functions"] if r.meta else []) if f.get("finding")}
         for fn, diags in r.failed.items():
+            last = fn.split("::")[-1]
+            if last in finding_fns:
+                # property-level contract on a copy of the function: listed => KNOWN-FINDING, else VIOLATION
+                violations.append({"unit": u, "fn": fn, "obligation": f"V:{u}:{last}", "diags": diags, "finding_tag": finding_fns[last]})
+                continue
             bn = match_baseline(fn, base["obligations"])
             if bn is None:
                 undecided.append(f"{u}: {fn} fails but was never discharged on the unchanged tree")
@@ -175,6 +185,7 @@ def run_property(pid, tier, seed):
             "rlib_build_s": build_s,
             "explanation": P.get("explanation", ""),
             "known_findings_reported": known_lines,
+            "finding_obligations": {k: ("holds" if e["success"] else "fails (property-level contract not met)") for k, e in finding_obs.items()},
             "undecided": undecided,
         },
         "assumptions": P.get("assumptions", []),
@@ -211,12 +222,13 @@ def rebaseline(units):
             return 2
     for u in units:
         r = driver.run_unit(u, ext)
-        if r.failed or r.undecided:
+        real_failed = [f for f in r.failed if "__finding_" not in f]
+        if real_failed or r.undecided:
             print(f"unit {u} not clean; baseline NOT written", list(r.failed), r.undecided)
             return 1
         os.makedirs(os.path.join(VERIF, "baseline"), exist_ok=True)
         with open(os.path.join(VERIF, "baseline", u + ".json"), "w") as f:
-            json.dump({"unit": u, "obligations": sorted(r.obligations),
+            json.dump({"unit": u, "obligations": sorted(n for n in r.obligations if "__finding_" not in n),
                        "functions": {f["name"]: f["sha256"] for f in r.meta["functions"]}}, f, indent=1)
         print(f"baseline/{u}.json: {len(r.obligations)} obligations")
     return 0
